@@ -1059,6 +1059,9 @@ _IT = r'<.* as std::iter::Iterator>::'
 def m_into_iter(it, x):
     d = deref_all(x)
     if isinstance(d, PyIter): return x if not isinstance(x, Ref) else d
+    k = adt_kind(d)
+    if k in ('some', 'none'): return PyIter([d.fields[0]] if k == 'some' else [])          # Option as an iterator of zero or one item
+    if k in ('ok', 'err'): return PyIter([d.fields[0]] if k == 'ok' else [])
     if isinstance(d, Adt): return x            # ranges
     if isinstance(d, list): return PyIter(elem_refs(x)) if isinstance(x, Ref) else PyIter(x)
     if hasattr(d, 'into_iter'): return d.into_iter(it, x)
@@ -1115,7 +1118,7 @@ def _copy_item(it, x):
         return v if isinstance(v, Ref) else it.clone(v)
     return it.clone(x)
 reg(_IT + r'(copied|cloned)', lambda it, c: PyIter([_copy_item(it, x) for x in rest(materialize(it, c))]))
-reg(_IT + r'chain::<.*>', lambda it, a, b: PyIter(rest(materialize(it, a)) + rest(materialize(it, b))))
+reg(_IT + r'chain::<.*>', lambda it, a, b: PyIter(rest(materialize(it, a)) + rest(materialize(it, m_into_iter(it, b)))))
 def _finite(it, x, n):
     """the first n items of a possibly unbounded range (start..)"""
     d = deref_all(x)
@@ -1161,8 +1164,9 @@ def m_flatten(it, itr):
     out = []
     for x in rest(materialize(it, itr)):
         d = deref_all(x)
-        if isinstance(d, Adt) and d.ty is None and len(d.fields) <= 1 and d.variant in (0, 1) and not isinstance(d, PyIter):
-            if d.variant == 1: out.append(d.fields[0])
+        k = adt_kind(d)
+        if k is not None:
+            if k in ('some', 'ok'): out.append(d.fields[0])
         else: out.extend(rest(materialize(it, m_into_iter(it, x))))
     return PyIter(out)
 @model(_IT + r'(take_while|skip_while)::<.*>', True)
